@@ -4,11 +4,14 @@
 # a bin's critical section.  cxxflags are part of the single compile+link command of a target.
 _C03_WRAP = ["-Wl,--wrap=posix_memalign", "-Wl,--wrap=free"]
 rc_target("c03_sba", flavour="asan", cxxflags=_C03_WRAP)
+# the same harness with source/allocator_sba.c as gcc -O2 builds it (the project's own compiler): gcc removes the plain stores
+# that erase a page's tags before free() as dead, clang keeps them - the "recycling parent" cases only bite on a gcc-built file
+rc_target("c03_sba_gcc", src="harness/c03_sba.cpp", flavour="asan", cxxflags=_C03_WRAP, gcc_objects=["source/allocator_sba.c"])
 rc_target("c03_sba_mt", flavour="sched", wrap=True,
           cxxflags=_C03_WRAP + ["-Wl,--wrap=aws_mutex_lock", "-Wl,--wrap=aws_mutex_unlock"])
 # second engine for the threaded clause: free-running threads under ThreadSanitizer (see c17_race / DESIGN 9.4 e)
 rc_target("c03_race", flavour="tsan", race_oracle=True)
-plan("C03", [T("c03_sba", 4000, 14000), T("c03_sba_mt", 2500, 8000), T("c03_race", 1500, 12000, 3, 8)], min_nt=2500,
+plan("C03", [T("c03_sba", 4000, 14000), T("c03_sba_gcc", 2500, 10000, 2, 6), T("c03_sba_mt", 2500, 8000), T("c03_race", 1500, 12000, 3, 8)], min_nt=2500,
      rule="command histories against a block table + interval map + independently observed pages; threaded histories x schedules",
      technique="model-based property testing (rapidcheck): per-block patterns re-verified after every command, interval map, "
                "size-class accounting model, page observation by link-time interposition; threads under the controlled scheduler + the same kind of generated program on free-running threads under ThreadSanitizer (race report or functional oracle)",
